@@ -118,6 +118,14 @@ func performCompare(processAll bool, ctx *processors.Context) error {
 				// fail
 				return err
 			}
+			if dirEntry.IsDir() {
+				if filePath != ctx.RootContext().AssemblyDir() {
+					// The assembly files of rules are in the assembly directory itself. Word lists
+					// in sub-directories (include, exclude) are not rules, whatever their name.
+					return filepath.SkipDir
+				}
+				return nil
+			}
 
 			if path.Ext(dirEntry.Name()) == ".ra" {
 				subs := regex.RuleIdFileNameRegex.FindAllStringSubmatch(dirEntry.Name(), -1)
